@@ -130,7 +130,44 @@ def k_conv(ctx, n, v, signed):
             ctx.note(f"to_{'signed' if signed else 'unsigned'} out-of-range refusal class {type(res).__name__}")
 
 
-KINDS = {"field": k_field, "pair": k_pair, "refuse": k_refuse, "conv": k_conv}
+def k_assign_history(ctx, w, seed):
+    """One field object used like a program would: hashed / used as dict key, reassigned by int or by octets, compared and hashed
+    again.  After every step all views, equality and hash must be those of a fresh field with the current (value, width)."""
+    import random
+    U = _imp()
+    r = random.Random(f"assign/{w}/{seed}")
+    case = {"k": "assign_history", "w": w, "seed": seed}
+    ctx.case(f"assign_history/w={w}", (w, seed), sample=case)
+    v = rand_uint(r, 8 * w)
+    f = U.UnsignedByteField(v, w)
+    ops = []
+    for step in range(r.randrange(2, 8)):
+        op = r.choice(("hash", "dict", "assign_int", "assign_bytes", "assign_bytearray_long", "eq"))
+        ops.append(op)
+        if op == "hash":
+            hash(f)
+        elif op == "dict":
+            _ = {f: 1}[f]
+        elif op == "assign_int":
+            v = rand_uint(r, 8 * w)
+            f.value = v
+        elif op == "assign_bytes":
+            v = rand_uint(r, 8 * w)
+            f.value = v.to_bytes(w, "big")
+        elif op == "assign_bytearray_long":
+            v = rand_uint(r, 8 * w)
+            f.value = bytearray(v.to_bytes(w, "big") + r.randbytes(r.randrange(1, 4)))
+        fresh = U.UnsignedByteField(v, w)
+        views = (bytes(f.as_bytes), int(f), len(f), f.value, f.hex_str)
+        exp = (v.to_bytes(w, "big"), v, w, v, _hex_str(v, w))
+        if not ctx.check("field.assign_history", views == exp, "views_differ_after_assignment", f"w={w}/{op}", dict(case, ops=ops), observed=repr(views), expected=repr(exp)):
+            return
+        if not ctx.check("field.assign_history", f == fresh and fresh == f and hash(f) == hash(fresh) and ({fresh: 1}.get(f) == 1), "eq_or_hash_differs_from_fresh_field",
+                         f"w={w}/after:{'+'.join(sorted(set(o for o in ops if o.startswith('assign')))) or 'none'}", dict(case, ops=ops)):
+            return
+
+
+KINDS = {"field": k_field, "pair": k_pair, "refuse": k_refuse, "conv": k_conv, "assign_history": k_assign_history}
 ROUTES = ("ctor", "gen_int", "gen_bytes", "from_bytes", "subclass", "assign_int", "assign_bytes")
 
 
@@ -175,6 +212,8 @@ def run(ctx):
     for v in range(256):
         k_pair(ctx, 1, v, 2, v)
         k_pair(ctx, 1, v, 1, v)
+    for j in range(ctx.n(3000, 300_000)):
+        k_assign_history(ctx, r.choice(WIDTHS), ctx.seed * 1_000_003 + ctx.shard[0] * 100_003 + j)
     # refusals
     for w in WIDTHS:
         for v in (-1, -2 ** 31, 1 << (8 * w), (1 << (8 * w)) + 1, 2 ** 70):
@@ -224,5 +263,5 @@ def conclude(ctx):
         ctx.require(ctx.classes.get(c, 0) > 0, f"class {c} empty")
     for k in ("s1", "u1", "s2", "u2", "s4", "u4", "s8", "u8"):
         ctx.require(ctx.tables.get("conv_accepted", {}).get(k, 0) > 0, f"conversion {k} never accepted a value")
-    for m in ("field.views", "field.roundtrip", "field.eq", "field.hash", "field.refusal", "conv"):
+    for m in ("field.views", "field.roundtrip", "field.eq", "field.hash", "field.refusal", "field.assign_history", "conv"):
         ctx.require(ctx.monitors.get(m, {}).get("evaluations", 0) > 0, f"monitor {m} never evaluated")
